@@ -221,5 +221,7 @@ def run(ctx):
 
 
 def replay(ctx, rep):
-    print("re-run ./check C18; case:", str(rep["case"])[:400])
-    return 1
+    """No case-level replay for this property (the failing case depends on recorded / random executions or on the
+    spec's answers): re-run the whole quick check against the current tree; exit 0 iff nothing is violated any more."""
+    print("replaying by re-running the check; recorded case:", str(rep.get("case"))[:300])
+    return run(ctx)
